@@ -17,11 +17,7 @@ import DDProofs.MddGcReach
 import DDProofs.MddCount
 import DDProofs.MddFuel
 
-namespace DD
-/-! names used in the design document -/
-theorem mddFindOrAdd_spec := @mFindOrAddCore_spec
-theorem mddIte_spec := @mIte_spec
-theorem mddApply_spec := @mApply_spec
-theorem mdd_canonical := @mcanonical
-theorem mddGc_exactly_reachable := @gc_exactly_reachable
-end DD
+/-! Names used in the design document: `mddFindOrAdd_spec` = `DD.mFindOrAddCore_spec`,
+`mddIte_spec` = `DD.mIte_spec`, `mddApply_spec` = `DD.mApply_spec`, `mdd_canonical` =
+`DD.mcanonical`, `mddGc_spec` = `DD.mddGc_spec` (+ `DD.gc_exactly_reachable`),
+`bddToMdd_spec` = `DD.bddToMdd_statement` (statement) / `DD.C15_bddToMdd_partial_call`. -/
